@@ -68,9 +68,7 @@ def main_merge(args):
     if args.decisions:
         if mfn:
             # write decisions as JSON file
-            with io.open(mfn, "w", encoding="utf8") as outfile:
-                json.dump(decisions, outfile, indent=2)
-                outfile.write("\n")
+            _write_output(mfn, json.dumps(decisions, indent=2) + "\n")
         else:
             # Print merge decisions (including unconflicted)
             config = prettyprint_config_from_args(args, out=io.StringIO())
@@ -78,12 +76,27 @@ def main_merge(args):
             logger.warning("Decisions:\n%s", config.out.getvalue())
     elif mfn:
         # Write partial or fully completed merge to given foo.ipynb filename
-        nbformat.write(merged, mfn)
+        text = nbformat.writes(merged)
+        if not text.endswith("\n"):
+            text += "\n"
+        _write_output(mfn, text)
         logger.info("Merge result written to %s", mfn)
     else:
         # Write merged notebook to terminal
         nbformat.write(merged, sys.stdout)
     return returncode
+
+
+def _write_output(filename, text):
+    """Write text to the output file.
+
+    The file is opened only when the complete content exists as bytes, so
+    that a failure to produce it (serialisation, encoding) leaves whatever
+    is at the output location untouched.
+    """
+    data = text.encode("utf8")
+    with io.open(filename, "wb") as outfile:
+        outfile.write(data)
 
 
 def _handle_agreed_deletion(base_fn, output_fn, args=None):
